@@ -1,5 +1,7 @@
 import HpoProofs.Facts
 import HpoProps.C02
+import HpoProofs.ObsEq
+import HpoProofs.Ic
 /-!
 # C16 — the ontology is a function of the facts, not of the order they are supplied
 
@@ -240,6 +242,156 @@ theorem C16_annotations (tops1 tops2 : List BOp) (o1 o2 oc1 oc2 : Onto)
   intro r
   rw [H1.linked k x r, H2.linked k x r]
   simp only [hh r, Up, hanc]
+
+/-- **Records, terms and totals are order independent.** With one name per record id, two
+permuted annotation histories on two connected ontologies with equal lookups give:
+equal record lookups (id, name, direct terms), equal term lookups (every field), and the same
+number of records per kind (the `N` of the information content). -/
+theorem C16_records_and_terms (tops1 tops2 : List BOp) (o1 o2 oc1 oc2 : Onto)
+    (h1 : runB tops1 {} = some o1) (h2 : runB tops2 {} = some o2)
+    (hac1 : Acyclic o1) (hac2 : Acyclic o2)
+    (c1 : o1.connectAll = .ok oc1) (c2 : o2.connectAll = .ok oc2)
+    (hterms : ∀ j, getT oc1.terms j = getT oc2.terms j)
+    (ops1 ops2 : List AOp) (hp : ops1.Perm ops2)
+    (nameOf : Kind → Nat → List Char) (hn : NamesFunctional nameOf ops1) :
+    (∀ k r, getR ((runA ops1 oc1).recs k) r = getR ((runA ops2 oc2).recs k) r) ∧
+    (∀ j, getT (runA ops1 oc1).terms j = getT (runA ops2 oc2).terms j) ∧
+    (∀ k, ((runA ops1 oc1).recs k).length = ((runA ops2 oc2).recs k).length) := by
+  obtain ⟨inv1, ⟨rank1, cl1, f1⟩, z1, _⟩ := connected_annInv tops1 o1 oc1 h1 hac1 c1
+  obtain ⟨inv2, ⟨rank2, cl2, f2⟩, z2, _⟩ := connected_annInv tops2 o2 oc2 h2 hac2 c2
+  have hn2 : NamesFunctional nameOf ops2 := fun op hop => hn op (hp.mem_iff.2 hop)
+  have e1 : ∀ k r, getR (oc1.recs k) r = none := by
+    intro k r
+    obtain ⟨_, hrest0⟩ := preInv_run tops1 {} o1 preInv_nil h1
+    obtain ⟨x, e, hrest, _⟩ := C01_connect o1 (preInv_run tops1 {} o1 preInv_nil h1).1 hac1
+    rw [c1] at e; cases e
+    have : oc1.recs k = [] := by rw [hrest, hrest0]; cases k <;> rfl
+    simp [this, getR]
+  have e2 : ∀ k r, getR (oc2.recs k) r = none := by
+    intro k r
+    obtain ⟨_, hrest0⟩ := preInv_run tops2 {} o2 preInv_nil h2
+    obtain ⟨x, e, hrest, _⟩ := C01_connect o2 (preInv_run tops2 {} o2 preInv_nil h2).1 hac2
+    rw [c2] at e; cases e
+    have : oc2.recs k = [] := by rw [hrest, hrest0]; cases k <;> rfl
+    simp [this, getR]
+  obtain ⟨H1, _, core1, ex1, nm1⟩ := runA_recs _ _ rank1 cl1 nameOf ops1 hn oc1 inv1 f1
+    (fun k r x hx => by rw [e1] at hx; cases hx)
+  obtain ⟨H2, _, core2, ex2, nm2⟩ := runA_recs _ _ rank2 cl2 nameOf ops2 hn2 oc2 inv2 f2
+    (fun k r x hx => by rw [e2] at hx; cases hx)
+  have hex : ∀ j, present oc1 j ↔ present oc2 j := by intro j; simp [present, hterms j]
+  have htouch : ∀ k r, (∃ op ∈ ops1, op.touches (present oc1) k r) ↔
+      (∃ op ∈ ops2, op.touches (present oc2) k r) := by
+    intro k r
+    have : ∀ op : AOp, op.touches (present oc1) k r ↔ op.touches (present oc2) k r := by
+      intro op; cases op <;> simp [AOp.touches, hex]
+    constructor
+    · rintro ⟨op, hop, ht⟩; exact ⟨op, hp.mem_iff.1 hop, (this op).1 ht⟩
+    · rintro ⟨op, hop, ht⟩; exact ⟨op, hp.mem_iff.2 hop, (this op).2 ht⟩
+  have hann := fun k => C16_annotations tops1 tops2 o1 o2 oc1 oc2 h1 h2 hac1 hac2 c1 c2 hterms ops1 ops2 hp k
+  have hsome : ∀ k r, (getR ((runA ops1 oc1).recs k) r).isSome ↔ (getR ((runA ops2 oc2).recs k) r).isSome := by
+    intro k r
+    rw [ex1 k r, ex2 k r, e1, e2]
+    simp only [Option.isSome_none, Bool.false_eq_true, false_or]
+    exact htouch k r
+  have hrecs : ∀ k r, getR ((runA ops1 oc1).recs k) r = getR ((runA ops2 oc2).recs k) r := by
+    intro k r
+    cases g1 : getR ((runA ops1 oc1).recs k) r with
+    | none =>
+      cases g2 : getR ((runA ops2 oc2).recs k) r with
+      | none => rfl
+      | some _ => have := (hsome k r).2 (by simp [g2]); simp [g1] at this
+    | some x1 =>
+      cases g2 : getR ((runA ops2 oc2).recs k) r with
+      | none => have := (hsome k r).1 (by simp [g1]); simp [g2] at this
+      | some x2 =>
+        have hh := (hann k).1 r
+        simp only [hposOf, g1, g2, Option.map_some, Option.getD_some] at hh
+        rw [rec_ext x1 x2 ((getR_id g1).trans (getR_id g2).symm)
+          ((nm1 k r x1 g1).trans (nm2 k r x2 g2).symm) hh]
+  refine ⟨hrecs, ?_, ?_⟩
+  · intro j
+    have hc : (getT (runA ops1 oc1).terms j).map coreOf = (getT (runA ops2 oc2).terms j).map coreOf := by
+      rw [core1 j, core2 j, hterms j]
+    have ha := fun k => (hann k).2 j
+    cases g1 : getT (runA ops1 oc1).terms j with
+    | none =>
+      cases g2 : getT (runA ops2 oc2).terms j with
+      | none => rfl
+      | some _ => rw [g1, g2] at hc; simp at hc
+    | some t1 =>
+      cases g2 : getT (runA ops2 oc2).terms j with
+      | none => rw [g1, g2] at hc; simp at hc
+      | some t2 =>
+        rw [g1, g2] at hc
+        simp only [Option.map_some, Option.some.injEq] at hc
+        have hg := ha .gene; have ho := ha .omim; have hr := ha .orpha
+        simp only [annOf, g1, g2, Option.map_some, Option.getD_some, Term.ann] at hg ho hr
+        rw [term_ext_ann t1 t2 hc hg ho hr]
+  · intro k
+    have hnd1 := recIds_nodup ops1 oc1 (fun k' => by
+      have : ∀ r, getR (oc1.recs k') r = none := e1 k'
+      cases hl : oc1.recs k' with
+      | nil => simp
+      | cons x xs => have := this x.id; rw [hl] at this; simp [getR] at this) _ _ rank1 cl1 inv1 f1 k
+    have hnd2 := recIds_nodup ops2 oc2 (fun k' => by
+      have : ∀ r, getR (oc2.recs k') r = none := e2 k'
+      cases hl : oc2.recs k' with
+      | nil => simp
+      | cons x xs => have := this x.id; rw [hl] at this; simp [getR] at this) _ _ rank2 cl2 inv2 f2 k
+    have hm : ∀ a, a ∈ ((runA ops1 oc1).recs k).map (·.id) ↔ a ∈ ((runA ops2 oc2).recs k).map (·.id) := by
+      intro a; rw [← getR_isSome_iff, ← getR_isSome_iff]; exact hsome k a
+    have := ((List.perm_ext_iff_of_nodup hnd1 hnd2).2 hm).length_eq
+    simpa using this
+
+/-- **Information content and default groups are order independent.** Two builder states with
+equal term lookups and equal numbers of records per kind (e.g. from `C16_records_and_terms`) give,
+after `calculate_information_content`, equal term lookups again (now including the stored
+information content of the three kinds), and `build_with_defaults` assigns the same categories and
+modifier roots. -/
+theorem C16_ic_and_defaults (b1 b2 r1 r2 : Onto)
+    (hterms : ∀ j, getT b1.terms j = getT b2.terms j)
+    (hsmall1 : ∀ j, (getT b1.terms j).isSome → j < maxId)
+    (hcount : ∀ k, (b1.recs k).length = (b2.recs k).length)
+    (h1 : b1.calcIc = .ok r1) (h2 : b2.calcIc = .ok r2) :
+    (∀ j, getT r1.terms j = getT r2.terms j) ∧
+    (∀ d1 d2, r1.buildWithDefaults = .ok d1 → r2.buildWithDefaults = .ok d2 →
+      d1.categories = d2.categories ∧ d1.modifier = d2.modifier ∧
+      ∀ j, getT d1.terms j = getT d2.terms j) := by
+  obtain ⟨t1, _, _, _⟩ := calcIc_ok b1 r1 h1
+  obtain ⟨t2, _, _, _⟩ := calcIc_ok b2 r2 h2
+  have hg := hcount .gene; have ho := hcount .omim; have hr := hcount .orpha
+  simp only [Onto.recs] at hg ho hr
+  have hT : ∀ j, getT r1.terms j = getT r2.terms j := by
+    intro j
+    rw [t1, t2, getT_map _ _ (fun t => by simp [setIc_id]), getT_map _ _ (fun t => by simp [setIc_id]),
+      hterms j, hg, ho, hr]
+  refine ⟨hT, ?_⟩
+  intro d1 d2 hd1 hd2
+  have hsmall1' : ∀ j, (getT r1.terms j).isSome → j < maxId := by
+    intro j hj
+    apply hsmall1 j
+    rw [t1, getT_map _ _ (fun t => by simp [setIc_id])] at hj
+    cases hgj : getT b1.terms j with
+    | none => rw [hgj] at hj; simp at hj
+    | some _ => rfl
+  have hsmall2' : ∀ j, (getT r2.terms j).isSome → j < maxId := by
+    intro j hj; rw [← hT j] at hj; exact hsmall1' j hj
+  have hget : ∀ j, r1.get j = r2.get j := by
+    intro j; rw [get_eq_getT r1 j hsmall1', get_eq_getT r2 j hsmall2', hT j]
+  unfold Onto.buildWithDefaults Onto.defaultCategories Onto.defaultModifier Onto.buildMinimal at hd1 hd2
+  have e1 : ∀ i, ({ r1 with categories := [], modifier := [] } : Onto).get i = r1.get i := fun _ => rfl
+  have e2 : ∀ i, ({ r2 with categories := [], modifier := [] } : Onto).get i = r2.get i := fun _ => rfl
+  simp only [e1, e2] at hd1 hd2
+  rw [hget 1, hget Onto.phenotypeId] at hd1
+  cases g1 : r2.get 1 with
+  | none => simp [g1, Res.bind] at hd2
+  | some root =>
+    cases g2 : r2.get Onto.phenotypeId with
+    | none => simp [g1, g2, Res.bind] at hd2
+    | some ph =>
+      simp only [g1, g2, Res.bind, Res.ok.injEq] at hd1 hd2
+      subst hd1; subst hd2
+      exact ⟨rfl, rfl, hT⟩
 
 /-! ### non-vacuity: the diamond of C01 from two different orders (and a repeated fact) -/
 
